@@ -37,6 +37,10 @@ def noRaiseB (o : NpOracle) (a : NArr) : Bool :=
      | some g, some t => (match g a with | .ok true => (match t a with | .ok _ => true | .error _ => false) | _ => true)
      | _, _ => true))
 
+/-- a converted datetime array is well formed and no relation leaves it (it is neither a String nor an Object) -/
+def dtOutOkB (r : NArr) : Bool :=
+  r.elems.all (fun x => elemWFB r.kind x && payWFB r.kind x) && !stringContains r && !objectContains r
+
 /-- `pd.to_datetime` facts on this array: where the String -> DateTime test accepts, no other relation out of String
 does (false exactly on the digit strings that are numbers and dates at once), and the converted array is a DateTime -/
 def oracleB (o : NpOracle) (a : NArr) : Bool :=
@@ -46,7 +50,7 @@ def oracleB (o : NpOracle) (a : NArr) : Bool :=
      (match stringIsFloat a with | .ok true => false | _ => true) &&
      (match stringIsBoolean a with | .ok true => false | _ => true) &&
      (match stringIsComplex a with | .ok true => false | _ => true) &&
-     (match o.dtWhole a with | .ok r => datetimeContains r | .raises _ => true)
+     (match o.dtWhole a with | .ok r => datetimeContains r && dtOutOkB r | .raises _ => true)
    | _ => true)
 
 def goodB (o : NpOracle) (a : NArr) : Bool :=
